@@ -445,12 +445,21 @@ def run_session(scenario, chunks, inputrc="", rows=24, cols=80, step_timeout=4.0
     return res
 
 
-def run_many(jobs, workers=None):
-    """jobs: list of kwargs dicts for run_session; runs them in parallel, keeps order."""
+def run_many(jobs, workers=None, confirm_timing=True):
+    """jobs: list of kwargs dicts for run_session; runs them in parallel, keeps order.
+    hang / spin / died are decided by timers: with confirm_timing a session that ended that way without a panic is run
+    again on its own, with twice the time, and the second run is the one that counts."""
     os.makedirs(os.path.join(vlib.BUILD, "tmp"), exist_ok=True)
     workers = workers or min(16, vlib.NPROC)
     with ThreadPoolExecutor(max_workers=workers) as ex:
-        return list(ex.map(lambda kw: run_session(**kw), jobs))
+        res = list(ex.map(lambda kw: run_session(**kw), jobs))
+    if confirm_timing:
+        for k, (kw, r) in enumerate(zip(jobs, res)):
+            if r["outcome"] in ("hang", "spin", "died") and not panics(r):
+                r2 = run_session(**dict(kw, step_timeout=2 * kw.get("step_timeout", 4.0)))
+                r2["rerun_alone"] = True
+                res[k] = r2
+    return res
 
 
 def returns(res):
